@@ -82,7 +82,7 @@ def gen_module(rng, helper_name):
         if deco:
             out.append(pad + '@' + deco)
         is_async = deco is None and rng.random() < 0.2
-        name = 'f%d' % k
+        name = ('f\xe5%d' if k % 6 == 1 else 'f%d') % k       # some identifiers hold a non-ASCII letter
         scope = 'class' if in_class else 'module'
         if deco in (None, 'local_deco', 'logged') and defined[scope] and rng.random() < 0.15:
             # a redefinition of an earlier function of the same scope (conditional redefinition, overload stubs
